@@ -3,6 +3,8 @@ import HmfVerif.Proofs.QuadLemmas
 import HmfVerif.Real.Tactics
 import HmfVerif.Gen.ExprFlow
 import HmfVerif.Spec.Wiring
+import HmfVerif.Gen.Guards
+import HmfVerif.Spec.Guards
 /-!
 # C08 — cumulative number and mass densities are consistent with dn/dm
 Statements about the list model of `hmf_integral_gtm` (tied to the code by evaluation at Float) over ℝ:
@@ -116,5 +118,8 @@ end
 theorem gtm_wiring :
     Gen.Flow.wiring.lookup "MassFunction._gtm/hmf_integral_gtm" = some Spec.Wiring.gtmIntegrator ∧
     Gen.Flow.wiring.lookup "MassFunction._gtm/<derived object>.update" = some Spec.Wiring.gtmExtension := by decide
+
+/-- thresholds of the cumulative integrals (10^16.5 tail limit, positivity mask) are the documented ones; no new special case -/
+theorem guards_cumulative : Gen.Guards.massFunction = Spec.Guards.massFunction ∧ Gen.Guards.integrate = Spec.Guards.integrate := by decide
 
 end Hmf.C08
